@@ -86,6 +86,17 @@ def attr_case(task):
             bad.append(('roundtrip', float(err)))
         if fd.mask_len != order // 2:
             bad.append(('mask_len',))
+        # index of the grid point closest to the origin, per axis
+        for c in 'xyz':
+            arr = getattr(fd, c + 'array')
+            ic = int(getattr(fd, f'i{c}center'))
+            if not (0 <= ic < len(arr)) or abs(arr[ic]) > np.abs(
+                    arr).min() * (1 + 1e-12) + 1e-300:
+                bad.append(('center-index', c, ic))
+        for c, h in (('x', 'dx'), ('y', 'dy'), ('z', 'dz')):
+            if getattr(fd, h) != p[h] or abs(getattr(fd, 'inverse_' + h)
+                                             * p[h] - 1) > 1e-15:
+                bad.append(('spacing-attribute', c))
     return {'task': list(task), 'bad': bad}
 
 
